@@ -498,10 +498,8 @@ func (pkgGen *HttpPackageGenerator) updateMiddlewareReg(router interface{}, midd
 	}
 
 	for _, mw := range middlewareList {
+		// the templates name the function <mw>Mw in both naming styles (the style only changes <mw>)
 		mwNamePattern := fmt.Sprintf(" %sMw", mw)
-		if pkgGen.SnakeStyleMiddleware {
-			mwNamePattern = fmt.Sprintf(" %s_mw", mw)
-		}
 		if bytes.Contains(file, []byte(mwNamePattern)) {
 			continue
 		}
